@@ -7,7 +7,7 @@ META = {
     "level": "other",
     "explanation": "Two layers, both decided by CBMC over all inputs within the bounds. API layer: the real crypt.c (crypt_rn, crypt_r, crypt via crypt-static.c, do_crypt, check_badsalt_chars, get_hashfn, make_failure_token) with the 16 methods replaced by contract stubs, one call from an arbitrary prior output field; phrase in {NULL, symbolic <= MAX_P, 512-byte}, setting in {NULL, symbolic over all 256 byte values <= MAX_S}. Method layer: each real crypt_<m>_rn under havoc digest models: on failure errno is set and the 384 output bytes (holding the token) are bit-identical.",
     "functions": ["crypt_rn", "crypt_r", "crypt", "do_crypt", "check_badsalt_chars", "get_hashfn", "make_failure_token", "crypt_checksalt",
-                  "crypt_{md5crypt,sha256crypt,sha512crypt,sunmd5,sha1crypt,nt,bigcrypt,descrypt,bsdicrypt}_rn"],
+                  "crypt_{descrypt,bigcrypt,bsdicrypt,sunmd5,scrypt}_rn, crypt_bcrypt_rn wrapper (quick); + rounds= spellings of sha256/512crypt, sha1crypt, yescrypt, other bcrypt variants (thorough)"],
     "bounds": {"quick": {"setting": "<= 8 bytes, all byte values (API) / per-method tail bound (methods)", "phrase": "NULL, <= 4 bytes, 512 bytes"},
                "thorough": {"setting": "<= 14 bytes, all byte values (API)", "phrase": "NULL, <= 8 bytes, 512 bytes"}},
     "outside": ["settings longer than the bound at API level (the filter loops are uniform in the position)",
@@ -25,4 +25,14 @@ META = {
 def queries(tier, seed, build):
     ms, mp = (8, 4) if tier == "quick" else (14, 8)
     qs = api_queries(["CHECK_RESULT"], max_s=ms, max_p=mp, timeout=900 if tier == "quick" else 3000)
+    # method layer: failure => errno set and the 384 output bytes untouched; malformed => refused
+    full = build.sub("full")
+    names = ["descrypt", "bigcrypt", "bsdicrypt", "sunmd5", "bcrypt", "scrypt"]
+    if tier == "thorough":
+        names += ["sunmd5-comma", "sunmd5-rounds", "sha256crypt-rounds", "sha512crypt-rounds", "sha1crypt", "yescrypt", "bcrypt_a", "bcrypt_x", "bcrypt_y"]
+    from .methods import BY_NAME
+    for n in names:
+        q = method_query(BY_NAME[n], "c05-" + n, timeout=900 if tier == "quick" else 3000)
+        q.build = full
+        qs.append(q)
     return qs
